@@ -40,31 +40,70 @@ theorem transparent_or (t : IntTy) (l r : ST) : ST.bor t l r = ST.mk (t.bor l.ge
 theorem transparent_xor (t : IntTy) (l r : ST) : ST.bxor t l r = ST.mk (t.bxor l.get r.get) := rfl
 theorem transparent_not (t : IntTy) (x : ST) : ST.bnot t x = ST.mk (t.bnot x.get) := rfl
 
-/-- `l op= r` leaves in `l` exactly what `l op r` returns, and the returned reference shows it -/
-theorem transparent_add_assign (t : IntTy) (l r : ST) : ST.addAssign t l r = (ST.add t l r).map fun s => (s, s) := by
-  unfold ST.addAssign ST.add; cases t.add l.get r.get <;> rfl
-theorem transparent_sub_assign (t : IntTy) (l r : ST) : ST.subAssign t l r = (ST.sub t l r).map fun s => (s, s) := by
-  unfold ST.subAssign ST.sub; cases t.sub l.get r.get <;> rfl
-theorem transparent_mul_assign (t : IntTy) (l r : ST) : ST.mulAssign t l r = (ST.mul t l r).map fun s => (s, s) := by
-  unfold ST.mulAssign ST.mul; cases t.mul l.get r.get <;> rfl
-theorem transparent_and_assign (t : IntTy) (l r : ST) : ST.andAssign t l r = (ST.band t l r, ST.band t l r) := rfl
-theorem transparent_or_assign (t : IntTy) (l r : ST) : ST.orAssign t l r = (ST.bor t l r, ST.bor t l r) := rfl
-theorem transparent_xor_assign (t : IntTy) (l r : ST) : ST.xorAssign t l r = (ST.bxor t l r, ST.bxor t l r) := rfl
+/-- `l op= r` is the compound assignment of the wrapped type on the wrapped values: its result is left in `l` and the
+returned reference shows it -/
+theorem transparent_add_assign (t : IntTy) (l r : ST) :
+    ST.addAssign t l r = (t.addAssign l.get r.get).map fun v => (ST.mk v, ST.mk v) := by
+  unfold ST.addAssign; cases t.addAssign l.get r.get <;> rfl
+theorem transparent_sub_assign (t : IntTy) (l r : ST) :
+    ST.subAssign t l r = (t.subAssign l.get r.get).map fun v => (ST.mk v, ST.mk v) := by
+  unfold ST.subAssign; cases t.subAssign l.get r.get <;> rfl
+theorem transparent_mul_assign (t : IntTy) (l r : ST) :
+    ST.mulAssign t l r = (t.mulAssign l.get r.get).map fun v => (ST.mk v, ST.mk v) := by
+  unfold ST.mulAssign; cases t.mulAssign l.get r.get <;> rfl
+theorem transparent_and_assign (t : IntTy) (l r : ST) :
+    ST.andAssign t l r = (ST.mk (t.andAssign l.get r.get), ST.mk (t.andAssign l.get r.get)) := rfl
+theorem transparent_or_assign (t : IntTy) (l r : ST) :
+    ST.orAssign t l r = (ST.mk (t.orAssign l.get r.get), ST.mk (t.orAssign l.get r.get)) := rfl
+theorem transparent_xor_assign (t : IntTy) (l r : ST) :
+    ST.xorAssign t l r = (ST.mk (t.xorAssign l.get r.get), ST.mk (t.xorAssign l.get r.get)) := rfl
 
-/-- `++x`: operand and result are both `x + 1` of the underlying type -/
+/-- `++x`: operand and result are both the incremented value of the underlying type -/
 theorem transparent_pre_inc (t : IntTy) (x : ST) :
-    ST.preInc t x = (t.add x.get 1).map fun v => (ST.mk v, ST.mk v) := by
-  unfold ST.preInc; cases t.add x.get 1 <;> rfl
+    ST.preInc t x = (t.inc x.get).map fun v => (ST.mk v, ST.mk v) := by
+  unfold ST.preInc; cases t.inc x.get <;> rfl
 theorem transparent_pre_dec (t : IntTy) (x : ST) :
-    ST.preDec t x = (t.sub x.get 1).map fun v => (ST.mk v, ST.mk v) := by
-  unfold ST.preDec; cases t.sub x.get 1 <;> rfl
-/-- `x++`: the operand becomes `x + 1`, the result is the old value -/
+    ST.preDec t x = (t.dec x.get).map fun v => (ST.mk v, ST.mk v) := by
+  unfold ST.preDec; cases t.dec x.get <;> rfl
+/-- `x++`: the operand becomes the incremented value, the result is the old value -/
 theorem transparent_post_inc (t : IntTy) (x : ST) :
-    ST.postInc t x = (t.add x.get 1).map fun v => (ST.mk v, x) := by
-  unfold ST.postInc ST.preInc; cases t.add x.get 1 <;> rfl
+    ST.postInc t x = (t.inc x.get).map fun v => (ST.mk v, x) := by
+  unfold ST.postInc ST.preInc; cases t.inc x.get <;> rfl
 theorem transparent_post_dec (t : IntTy) (x : ST) :
-    ST.postDec t x = (t.sub x.get 1).map fun v => (ST.mk v, x) := by
-  unfold ST.postDec ST.preDec; cases t.sub x.get 1 <;> rfl
+    ST.postDec t x = (t.dec x.get).map fun v => (ST.mk v, x) := by
+  unfold ST.postDec ST.preDec; cases t.dec x.get <;> rfl
+
+/-- members: writing through `get()`, copy assignment, `strong_typedef_map`, `strong_typedef_apply`,
+`strong_typedef_construct_cast` all act on the one wrapped value -/
+theorem transparent_members (x y : ST) (v : Int) (f : Int → Int) (g : Int → Int → Int) :
+    (ST.set x v).get = v ∧ ST.assign x y = (y, y) ∧ (ST.map f x).get = f x.get ∧
+    (ST.apply2 g x y).get = g x.get y.get ∧ (ST.constructCast f v).get = f v := ⟨rfl, rfl, rfl, rfl, rfl⟩
+
+/-- the operators are `strong_typedef_apply` / `strong_typedef_map` of the plain operators -/
+theorem transparent_ops_are_apply (t : IntTy) (l r : ST) :
+    ST.band t l r = ST.apply2 t.band l r ∧ ST.bor t l r = ST.apply2 t.bor l r ∧ ST.bxor t l r = ST.apply2 t.bxor l r ∧
+    ST.bnot t l = ST.map t.bnot l := ⟨rfl, rfl, rfl, rfl⟩
+
+/-- the same object on both sides (`x -= x`, `x ^= x`): zero, whatever the type -/
+theorem self_assign_ops_zero (t : IntTy) (x : ST) :
+    ST.subAssign t x x = .ok (ST.mk 0, ST.mk 0) ∧ ST.xorAssign t x x = (ST.mk 0, ST.mk 0) := by
+  constructor
+  · have h0 : t.promoted.arith 0 = .ok 0 := by
+      by_cases hw : t.bits < 32
+      · rw [IntTy.promoted_narrow t hw]; rfl
+      · rw [IntTy.promoted_wide t hw]
+        cases hs : t.signed with
+        | true =>
+          apply IntTy.arith_signed_ok t hs
+          have := IntTy.two_pow_pos (t.bits - 1)
+          unfold IntTy.Repr IntTy.lo IntTy.hi; simp only [hs, if_true]; omega
+        | false => rw [IntTy.arith_unsigned t hs]; simp
+    unfold ST.subAssign IntTy.subAssign IntTy.sub
+    rw [Int.sub_self, h0]
+    show (Except.ok (ST.mk (t.conv 0), ST.mk (t.conv 0)) : M (ST × ST)) = _
+    rw [IntTy.conv_zero]
+  · unfold ST.xorAssign IntTy.xorAssign
+    rw [IntTy.bxor_self, IntTy.conv_zero]
 
 /-- the six comparison operators are those of the wrapped values -/
 theorem transparent_comparison (l r : ST) :
@@ -103,6 +142,92 @@ theorem int_arith_closed (t : IntTy) (a b v : Int) :
     (t.add a b = .ok v → t.Repr v) ∧ (t.sub a b = .ok v → t.Repr v) ∧ (t.mul a b = .ok v → t.Repr v) ∧
     (t.neg a = .ok v → t.Repr v) :=
   ⟨IntTy.arith_repr t _ v, IntTy.arith_repr t _ v, IntTy.arith_repr t _ v, IntTy.arith_repr t _ v⟩
+
+/-! ### compound assignment of the underlying type: integral promotion for the types narrower than `int` -/
+
+/-- conversion to the type: identity on its values, always lands in the type, congruent modulo 2^bits -/
+theorem int_conv_spec (t : IntTy) (hb : 0 < t.bits) (x : Int) :
+    (t.Repr x → t.conv x = x) ∧ t.Repr (t.conv x) ∧ ∃ k : Int, t.conv x = x + k * 2 ^ t.bits :=
+  ⟨IntTy.conv_of_repr t hb x, IntTy.conv_repr t hb x, IntTy.conv_congr t x⟩
+
+/-- `int` and wider: `a op= b` is `a op b` (same value, same undefined cases), `++a` is `a + 1` -/
+theorem int_assign_wide (t : IntTy) (hb : 0 < t.bits) (hw : ¬ t.bits < 32) (a b : Int) :
+    t.addAssign a b = t.add a b ∧ t.subAssign a b = t.sub a b ∧ t.mulAssign a b = t.mul a b ∧
+    t.inc a = t.add a 1 ∧ t.dec a = t.sub a 1 := by
+  have hp := IntTy.promoted_wide t hw
+  refine ⟨?_, ?_, ?_, ?_, ?_⟩ <;>
+    simp only [IntTy.inc, IntTy.dec, IntTy.addAssign, IntTy.subAssign, IntTy.mulAssign, hp, IntTy.add, IntTy.sub, IntTy.mul] <;>
+    exact IntTy.arith_conv_wide t hb _
+
+/-- for `int` and wider types (no integral promotion) `l op= r` leaves in `l` exactly what `l op r` returns -/
+theorem transparent_assign_is_binary_wide (t : IntTy) (hb : 0 < t.bits) (hw : ¬ t.bits < 32) (l r : ST) :
+    ST.addAssign t l r = (ST.add t l r).map (fun s => (s, s)) ∧
+    ST.subAssign t l r = (ST.sub t l r).map (fun s => (s, s)) ∧
+    ST.mulAssign t l r = (ST.mul t l r).map (fun s => (s, s)) ∧
+    ST.andAssign t l r = (ST.band t l r, ST.band t l r) ∧
+    ST.orAssign t l r = (ST.bor t l r, ST.bor t l r) ∧
+    ST.xorAssign t l r = (ST.bxor t l r, ST.bxor t l r) := by
+  have hp := IntTy.promoted_wide t hw
+  obtain ⟨h1, h2, h3, -, -⟩ := int_assign_wide t hb hw l.get r.get
+  refine ⟨?_, ?_, ?_, ?_, ?_, ?_⟩
+  · unfold ST.addAssign ST.add; rw [h1]; cases t.add l.get r.get <;> rfl
+  · unfold ST.subAssign ST.sub; rw [h2]; cases t.sub l.get r.get <;> rfl
+  · unfold ST.mulAssign ST.mul; rw [h3]; cases t.mul l.get r.get <;> rfl
+  · unfold ST.andAssign ST.band IntTy.andAssign; rw [hp]; unfold IntTy.band; rw [IntTy.bitwise_conv_wide t hb]
+  · unfold ST.orAssign ST.bor IntTy.orAssign; rw [hp]; unfold IntTy.bor; rw [IntTy.bitwise_conv_wide t hb]
+  · unfold ST.xorAssign ST.bxor IntTy.xorAssign; rw [hp]; unfold IntTy.bxor; rw [IntTy.bitwise_conv_wide t hb]
+
+/-- types of at most 16 bits: `+=`, `-=`, `++`, `--` are computed in `int`, never overflow, and wrap modulo 2^bits
+(also for the signed types: `short x = 32767; ++x` is `-32768`, not undefined) -/
+theorem int_assign_narrow (t : IntTy) (h16 : t.bits ≤ 16) (a b : Int) (ha : t.Repr a) (hb : t.Repr b) :
+    t.addAssign a b = .ok (t.conv (a + b)) ∧ t.subAssign a b = .ok (t.conv (a - b)) ∧
+    t.inc a = .ok (t.conv (a + 1)) ∧ t.dec a = .ok (t.conv (a - 1)) := by
+  have hn : t.bits < 32 := by omega
+  have hp := IntTy.promoted_narrow t hn
+  have h1 := IntTy.repr_narrow_bound t h16 a ha
+  have h2 := IntTy.repr_narrow_bound t h16 b hb
+  refine ⟨?_, ?_, ?_, ?_⟩ <;>
+    simp only [IntTy.inc, IntTy.dec, IntTy.addAssign, IntTy.subAssign, hp, IntTy.add, IntTy.sub]
+  · rw [IntTy.i32_arith_ok _ (by omega)]; rfl
+  · rw [IntTy.i32_arith_ok _ (by omega)]; rfl
+  · rw [IntTy.i32_arith_ok _ (by omega)]; rfl
+  · rw [IntTy.i32_arith_ok _ (by omega)]; rfl
+
+/-- `*=` on a narrow type multiplies in `int`: the wrapped product when it fits into `int`, undefined otherwise
+(`unsigned short` 65535 * 65535) -/
+theorem int_mul_assign_narrow (t : IntTy) (hn : t.bits < 32) (a b : Int) :
+    (IntTy.i32.Repr (a * b) → t.mulAssign a b = .ok (t.conv (a * b))) ∧
+    (¬ IntTy.i32.Repr (a * b) → t.mulAssign a b = .error .signedOverflow) := by
+  have hp := IntTy.promoted_narrow t hn
+  constructor <;> intro h <;> simp only [IntTy.mulAssign, hp, IntTy.mul]
+  · rw [IntTy.arith_signed_ok _ rfl _ h]; rfl
+  · rw [IntTy.arith_signed_overflow _ rfl _ h]; rfl
+
+/-- … which cannot happen for the signed narrow types and for `unsigned char` -/
+theorem int_mul_assign_narrow_defined (t : IntTy) (h16 : t.bits ≤ 16) (hs : t.signed = true ∨ t.bits ≤ 15) (a b : Int)
+    (ha : t.Repr a) (hb : t.Repr b) : t.mulAssign a b = .ok (t.conv (a * b)) := by
+  apply (int_mul_assign_narrow t (by omega) a b).1
+  rw [IntTy.i32_repr_iff]
+  have key : -32768 ≤ a ∧ a ≤ 32768 ∧ -32768 ≤ b ∧ b ≤ 32768 := by
+    have hp := IntTy.two_pow_pos (t.bits - 1)
+    have hq := IntTy.two_pow_pos t.bits
+    have e15 : (2 : Int) ^ 15 = 32768 := by decide
+    unfold IntTy.Repr IntTy.lo IntTy.hi at ha hb
+    rcases hs with hs | hs
+    · have h2 : (2 : Int) ^ (t.bits - 1) ≤ 2 ^ 15 := by
+        have : (2 : Nat) ^ (t.bits - 1) ≤ 2 ^ 15 := Nat.pow_le_pow_right (by decide) (by omega)
+        exact_mod_cast this
+      simp only [hs, if_true] at ha hb
+      omega
+    · have h2 : (2 : Int) ^ t.bits ≤ 2 ^ 15 := by
+        have : (2 : Nat) ^ t.bits ≤ 2 ^ 15 := Nat.pow_le_pow_right (by decide) hs
+        exact_mod_cast this
+      have h3 : (2 : Int) ^ (t.bits - 1) ≤ 2 ^ 15 := by
+        have : (2 : Nat) ^ (t.bits - 1) ≤ 2 ^ 15 := Nat.pow_le_pow_right (by decide) (by omega)
+        exact_mod_cast this
+      cases hsg : t.signed <;> simp only [hsg, if_true, Bool.false_eq_true, if_false] at ha hb <;> omega
+  have := IntTy.mul_bound a b 32768 ⟨key.1, key.2.1⟩ ⟨key.2.2.1, key.2.2.2⟩
+  omega
 
 /-! ### strong_typedef: comparison coherence -/
 
@@ -421,6 +546,12 @@ example : IntTy.i32.add 2147483647 1 = .error .signedOverflow := by rfl
 example : IntTy.u32.add 4294967295 1 = .ok 0 := by rfl
 example : IntTy.u32.neg 1 = .ok 4294967295 := by rfl
 example : ST.postInc .i32 ⟨5⟩ = .ok (⟨6⟩, ⟨5⟩) := by rfl
+-- integral promotion: short 32767 + 1 wraps (no fault), unsigned short 65535 * 65535 overflows int, 255 * 255 does not
+example : ST.preInc .i16 ⟨32767⟩ = .ok (⟨-32768⟩, ⟨-32768⟩) := by decide
+example : IntTy.u16.mulAssign 65535 65535 = .error .signedOverflow := by decide
+example : IntTy.u16.mulAssign 255 255 = .ok 65025 := by decide
+example : IntTy.i8.mulAssign 127 2 = .ok (-2) := by decide
+example : IntTy.u8.addAssign 200 200 = .ok 144 := by decide
 -- optional: nothing < just 0; just 1 is not < just 0
 example : Opt.lt (fun a b : Int => decide (a < b)) none (some 0) = true ∧
     Opt.lt (fun a b : Int => decide (a < b)) (some 1) (some 0) = false := by decide
